@@ -52,11 +52,19 @@ class RuleResult:
         self.findings.append(f)
         return f
 
-    def floor(self, name, measured, floor):
-        """fail closed: an anchor / instance count below what was confirmed by hand"""
+    def floor(self, name, measured, floor, exact=False):
+        """fail closed: an anchor / instance count below what was confirmed by hand.
+
+        `floor` is the number counted on the reviewed tree.  Counts of *sites* shrink under behaviour-preserving clean-ups
+        (a duplicated expression extracted into a helper, two loops merged), so unless the count is a count of distinct named
+        anchors that must each exist (`exact=True`) the alarm is raised only when fewer than 60 % of the confirmed sites are
+        left: the purpose of a floor is to notice a rule that has stopped matching, not to freeze the number of call sites."""
         if not FLOORS_ENABLED:
             return
-        self.floors.append((name, measured, floor))
+        counted = floor
+        if not exact and floor >= 3:
+            floor = -(-floor * 3 // 5)
+        self.floors.append((name, measured, counted))
         if measured < floor:
             self.fail("floor|%s" % name, "-", "fail-closed: %s = %d below the hand-confirmed floor %d "
                       "(anchor renamed/removed or the rule no longer matches; re-confirm and update tables/)" % (name, measured, floor),
